@@ -203,19 +203,23 @@ async def _sim_call_and_capture_failure(handler, call):
     task = asyncio.current_task()
     if task is not None:
         w.task_request[id(task)] = (rid, call)
+        w.task_txn[id(task)] = []
     w.log_event("rpc_in", rid, call.name, _brief_args(call))
     result = await _orig["_call_and_capture_failure"](handler, call)
     from stepup.core.rpc import RemoteFailure
 
+    txns = w.task_txn.pop(id(task), []) if task is not None else []
     if isinstance(result, RemoteFailure):
         w.log_event("rpc_out", rid, call.name, "fail", result.qualname, result.message[:400])
         for m in w.monitors:
             m.on_rpc_failure(w, rid, call, result)
             m.on_rpc_done(w, call, False)
+            m.on_request_done(w, call, False, result, txns)
     else:
         w.log_event("rpc_out", rid, call.name, "ok")
         for m in w.monitors:
             m.on_rpc_done(w, call, True)
+            m.on_request_done(w, call, True, result, txns)
     if task is not None:
         w.task_request.pop(id(task), None)
     return result
